@@ -247,7 +247,8 @@ func tableCatalog(db *sql.DB, name, createSQL string) (string, error) {
 		lines = append(lines, "check "+c)
 	}
 	// Foreign keys.
-	rows, err = db.Query("SELECT id, seq, \"table\", \"from\", coalesce(\"to\", ''), on_update, on_delete FROM pragma_foreign_key_list(?) ORDER BY id, seq", name)
+	// A reference without a column list means the parent's primary key (position by position).
+	rows, err = db.Query("SELECT id, seq, \"table\", \"from\", coalesce(\"to\", (SELECT p.name FROM pragma_table_info(fk.\"table\") AS p WHERE p.pk = fk.seq + 1), ''), on_update, on_delete FROM pragma_foreign_key_list(?) AS fk ORDER BY id, seq", name)
 	if err != nil {
 		return "", err
 	}
@@ -323,7 +324,10 @@ func tableCatalog(db *sql.DB, name, createSQL string) (string, error) {
 		if x.sql != "" {
 			on := strings.Index(strings.ToUpper(x.sql), " ON ")
 			body := balancedAfter(x.sql, on)
-			def = norm(body)
+			// Parentheses around an expression part may be doubled or missing ((lower(c)) / lower(c)):
+			// the parts are compared without them (asc/desc and the column/expression split come
+			// from pragma_index_xinfo above).
+			def = strings.NewReplacer("(", "", ")", "").Replace(norm(body))
 			if k := strings.Index(x.sql, body); k >= 0 {
 				rest := x.sql[k+len(body):]
 				if w := strings.Index(strings.ToUpper(rest), "WHERE"); w >= 0 {
